@@ -9,5 +9,6 @@ def J(harness, **kw):
     return d
 
 PROPS = {
-    "T0": {"quick": [J("^vhT0_")], "bounds": {}, "assumptions": []},
+    "C04": {"quick": [J("^vhC04_ref_L3$", samples=8)], "thorough": [J("^vhC04_ref_L(3|4)$", samples=16)],
+            "bounds": {"script_length_quick": 3, "script_length_thorough": 4}, "assumptions": []},
 }
